@@ -277,6 +277,13 @@ def cases(tier):
                                           flat_kinds(forest))))
             yield {'forest': forest, 'pairs': pairs,
                    'syntax': SYNTAXES[idx % 3]}
+            if n <= 2 and any(k.startswith('sub')
+                              for k in flat_kinds(forest)):
+                # the same program entered at recursion level 200: the
+                # sub-template call is refused by the recursion guard
+                # (SystemError) - nothing may stay behind then either
+                yield {'forest': forest, 'pairs': False, 'level0': 200,
+                       'syntax': SYNTAXES[idx % 3]}
 
 
 # ---------------------------------------------------------------- execution
@@ -327,7 +334,7 @@ class SnapWorld(World):
         World.point(self, ident)
 
 
-def execute(nodes, ns, syntax, faults, cache=None):
+def execute(nodes, ns, syntax, faults, cache=None, level0=3):
     from DocumentTemplate._DocumentTemplate import TemplateDict
     w = SnapWorld('impl', syntax, None, faults)
     built = w.build_ns(ns)
@@ -341,7 +348,7 @@ def execute(nodes, ns, syntax, faults, cache=None):
     md = TemplateDict()
     for f in (f1, f2, f3):
         md._push(f)
-    md.level = 3
+    md.level = level0
     # what String.__call__ sets on the namespace of a top-level call
     md.guarded_getattr = None
     md.guarded_getitem = None
@@ -369,8 +376,11 @@ def execute(nodes, ns, syntax, faults, cache=None):
 
 def judge(res, case, nodes, ns, pairs, faults, label, cache=None):
     w, before, after, how, src, sent = execute(nodes, ns, case['syntax'],
-                                               faults, cache)
+                                               faults, cache,
+                                               case.get('level0', 3))
     fk = '+'.join(sorted({f[0] for f in faults.values()})) or 'none'
+    if case.get('level0', 3) != 3:
+        fk += '@level%d' % case['level0']
     sub = dict(case, faults={str(k): v for k, v in faults.items()})
     kinds = sorted(set(flat_kinds(case['forest'])))
 
